@@ -361,7 +361,9 @@ func (e *Engine) Corpus() ([]Input, error) {
 	isSpec := func(n string) bool {
 		return strings.HasSuffix(n, ".json") || strings.HasSuffix(n, ".yml") || strings.HasSuffix(n, ".yaml")
 	}
-	for _, dir := range []string{"_testdata/positive", "_testdata/examples"} {
+	// (_testdata/negative: documents the tree refuses. They are workloads too: a tree that accepts one of them must
+	// generate it deterministically, and a refusal must not depend on order, schedule or history either.)
+	for _, dir := range []string{"_testdata/positive", "_testdata/examples", "_testdata/negative"} {
 		root := filepath.Join(e.S.Src, dir)
 		err := filepath.Walk(root, func(p string, info os.FileInfo, err error) error {
 			if err != nil {
